@@ -184,12 +184,24 @@ fn imported_credentials(rep: &mut Report, seed: u64, n: usize) {
         let l2 = *rng.pick(&[0usize, 16, 32, 40]);
         let id = rng.bytes(16);
         let hm = Some((rng.bytes(l1), if l2 == 0 { None } else { Some(rng.bytes(l2)) }));
-        let (pk, _, _) = crate::util::seeded_passkey(&mut rng, "example.com", &id, Some(b"u"), Some(1), hm);
+        let (mut pk, _, _) = crate::util::seeded_passkey(&mut rng, "example.com", &id, Some(b"u"), Some(1), hm);
+        // ... and COSE keys that are legal but not shaped as this library writes them
+        let key_shape = rng.below(6);
+        match key_shape {
+            1 => {
+                pk.key.key_ops.insert(coset::KeyOperation::Assigned(coset::iana::KeyOperation::Sign));
+            }
+            2 => pk.key.key_id = vec![1, 2, 3],
+            3 => pk.key.params.reverse(),
+            4 => pk.key.params.push((coset::Label::Int(-70_000), ciborium::Value::Text("vendor".into()))),
+            5 => pk.key.base_iv = vec![9; 8],
+            _ => {}
+        }
         rig.store.insert_raw(pk);
         let uv = rng.bool();
         rig.uv.set_outcome(crate::collab::UvOutcome::Check { presence: true, verification: uv });
         let mut auth = rig.auth(crate::util::AuthCfg { hmac: crate::util::HmacCfg::WithoutUv, ..Default::default() });
-        let case = json!({"index": 2_000_000 + k, "op": "assertion with an imported credential", "prf_secret_lengths": [l1, l2], "user_verified": uv});
+        let case = json!({"index": 2_000_000 + k, "op": "assertion with an imported credential", "prf_secret_lengths": [l1, l2], "user_verified": uv, "cose_key_shape": (["as written by the library", "key_ops=[sign]", "kid", "parameters reversed", "extra vendor parameter", "base IV"][key_shape])});
         let ext = ctap2::get_assertion::ExtensionInputs {
             hmac_secret: None,
             prf: Some(ctap2::extensions::AuthenticatorPrfInputs { eval: Some(ctap2::extensions::AuthenticatorPrfValues { first: rng.arr32(), second: rng.bool().then(|| [7u8; 32]) }), eval_by_credential: None }),
